@@ -232,7 +232,9 @@ impl BobState {
                             });
                         }
                     }
-                    let last_progress = self.progress.take().unwrap();
+                    // keep the last outcome in place: if the store call fails, `into_outcome` must still
+                    // be able to report it
+                    let last_progress = self.progress.clone().unwrap();
                     let next = sync
                         .sync_process_message(
                             namespace,
@@ -246,7 +248,9 @@ impl BobState {
                 }
                 (Message::Sync(msg), Some(namespace)) => {
                     trace!("recv process message");
-                    let last_progress = self.progress.take().unwrap();
+                    // keep the last outcome in place: if the store call fails, `into_outcome` must still
+                    // be able to report it
+                    let last_progress = self.progress.clone().unwrap();
                     sync.sync_process_message(*namespace, msg, *self.peer.as_bytes(), last_progress)
                         .await
                 }
